@@ -700,6 +700,11 @@ func (s *v4Server) commitLease(l *dhcpsvc.Lease, hostname string) {
 		if prev == "" {
 			// The lease is just allocated due to DHCPDISCOVER.
 			hostname = aghnet.GenerateHostname(l.IP)
+			if _, ok = s.hostsIndex[hostname]; ok {
+				// The generated hostname is taken as well, e.g. by a client
+				// that named itself like that.
+				hostname = ""
+			}
 		} else {
 			hostname = prev
 		}
